@@ -143,16 +143,21 @@ def r2_closure(ctx):
                 continue
             d = o.state.variants.get(calllog.call_term(pops[0]))
             if v[0] == 'Some':
-                ok = d == 1 and ip.to_term(o.state, v[1][0]) == calllog.payload(calllog.call_term(pops[0]))
-                # the class loop ran over all class ids: the iterator was exhausted on this path
-                role = 'yields-the-popped-term'
+                r = calllog.payload(calllog.call_term(pops[0]))
+                ok = d == 1 and ip.to_term(o.state, v[1][0]) == r
+                # the class loop ran over all class ids of the popped term: on this path the class-id iterator of r was
+                # created and its last next() answered None (no guard or early exit may skip the successors of a term)
+                cids = [c for c in o.state.calls if c[0] == RE + 'RE::class_ids' and c[1] == (r,)]
+                nexts = [c for c in o.state.calls if c[0].endswith('as std::iter::Iterator>::next') and cids and T.show(calllog.call_term(cids[0])) in T.show(c[1][0])]
+                ok = ok and len(cids) == 1 and bool(nexts) and o.state.variants.get(calllog.call_term(nexts[-1])) == 0
+                role = 'yields-the-popped-term-after-pushing-all-its-class-derivatives'
             else:
                 ok = d == 0
                 role = 'none-iff-queue-empty'
             kinds.add(role)
             ctx.obligation(ok)
             (ctx.ok if ok else ctx.violation)('C19.R2', 'C19.R2/DerivativeIterator::next/%s' % role, fn.path, fn.site(), {'returned': safe_show(ip, o)[:200]}, cfg)
-        for need in ('yields-the-popped-term', 'none-iff-queue-empty'):
+        for need in ('yields-the-popped-term-after-pushing-all-its-class-derivatives', 'none-iff-queue-empty'):
             ok = need in kinds
             ctx.obligation(ok)
             (ctx.ok if ok else ctx.violation)('C19.R2', 'C19.R2/DerivativeIterator::next/leaf-present:%s' % need, fn.path, fn.site(), None, cfg)
